@@ -873,6 +873,17 @@ def run_opts(case, npz):
         pf = I.random_state(sites, {'kind': 'product'}, rng)
         pi_ = make_psi(sites, {}, 'infinite', rng, {})
         big = {'chi_max': 50}
+        from tenpy.networks.mpo import MPOEnvironment
+        pf2 = I.random_state(sites[:-1], {'kind': 'product'}, rng)
+        Hnomark = MPO(sites, [Hi.get_W(i) for i in range(L)], 'infinite', None, None, mps_unit_cell_width=L)
+        Hnomark_f = MPO(sites, [Hf.get_W(i) for i in range(L)], 'finite', None, None, mps_unit_cell_width=L)
+
+        def evo3():
+            from tenpy.models.model import MPOModel
+            from tenpy.models.lattice import Chain
+            from tenpy.algorithms.mpo_evolution import ExpMPOEvolution
+            M = MPOModel(Chain(L, site, bc='open', bc_MPS='finite'), Hf)
+            return ExpMPOEvolution(pf.copy(), M, {'dt': 0.1, 'N_steps': 1, 'order': 3, 'compression_method': 'SVD', 'trunc_params': big}).run()
         Wf = [Hf.get_W(i).itranspose(['p', 'p*', 'wL', 'wR']).to_ndarray() for i in range(L)]
         calls = {
             'make_U:unknown-approximation': lambda: Hf.make_U(0.1, 'III'),
@@ -899,6 +910,13 @@ def run_opts(case, npz):
             'enlarge_mps_unit_cell:non-integer': lambda: Hi.copy().enlarge_mps_unit_cell(1.5),
             'enlarge_mps_unit_cell:finite': lambda: Hf.copy().enlarge_mps_unit_cell(2),
             'MPOTransferMatrix:finite': lambda: MPOTransferMatrix(Hf, pf),
+            'variance:L-mismatch': lambda: Hf.variance(pf2),
+            'apply_naively:L-mismatch': lambda: Hf.apply_naively(pf2.copy()),
+            'apply_zipup:L-mismatch': lambda: Hf.apply_zipup(pf2.copy(), {'trunc_params': big}),
+            'apply_zipup:bc-mismatch': lambda: Hi.apply_zipup(pf.copy(), {'trunc_params': big}),
+            'MPOTransferMatrix:no-markers': lambda: MPOTransferMatrix(Hnomark, pi_),
+            'MPOEnvironment:no-IdL-marker': lambda: MPOEnvironment(pf, Hnomark_f, pf),
+            'ExpMPOEvolution:order-3': lambda: evo3(),
         }
         out['refusals'] = {}
         for nm, f in calls.items():
